@@ -277,14 +277,22 @@ func (m msgServer) Acknowledgement(
 ) (*packettypes.MsgAcknowledgementResponse, error) {
 	ctx := sdk.UnwrapSDKContext(goCtx)
 
+	// the application that sent the packet lives on the source chain only: a relay chain
+	// passes the acknowledgement on without running any application logic
+	isSource := msg.Packet.GetSourceChain() == m.k.ClientKeeper.GetChainName(ctx)
+
 	// Retrieve callbacks from router
-	cbs, ok := m.k.RoutingKeeper.Router.GetRoute(routingtypes.Port(msg.Packet.Port))
-	if !ok {
-		return nil, errorsmod.Wrapf(
-			routingtypes.ErrInvalidRoute,
-			"route not found to module: %s",
-			msg.Packet.Port,
-		)
+	var cbs routingtypes.TIBCModule
+	if isSource {
+		var ok bool
+		cbs, ok = m.k.RoutingKeeper.Router.GetRoute(routingtypes.Port(msg.Packet.Port))
+		if !ok {
+			return nil, errorsmod.Wrapf(
+				routingtypes.ErrInvalidRoute,
+				"route not found to module: %s",
+				msg.Packet.Port,
+			)
+		}
 	}
 
 	// Perform TAO verification
@@ -296,12 +304,13 @@ func (m msgServer) Acknowledgement(
 	}
 
 	// Perform application logic callback
-	_, err := cbs.OnAcknowledgementPacket(ctx, msg.Packet, msg.Acknowledgement)
-	if err != nil {
-		return nil, errorsmod.Wrap(
-			err,
-			"acknowledge packet callback failed",
-		)
+	if isSource {
+		if _, err := cbs.OnAcknowledgementPacket(ctx, msg.Packet, msg.Acknowledgement); err != nil {
+			return nil, errorsmod.Wrap(
+				err,
+				"acknowledge packet callback failed",
+			)
+		}
 	}
 
 	defer func() {
